@@ -15,7 +15,9 @@ EL_ODD = {"i1": 1, "i4": 1, "i12": 2}
 RULE = (
     "cases: one memref.copy between two layouts of equal tile bounds: rank 1-4, tile depth 1-3, bounds 1-4, element widths 8/16/32/64; each "
     "side is row-major (no layout), strided<[..], offset> (permuted dimensions, padding, static or dynamic strides/offset) or #tsl.tsl (any "
-    "step order, padding, offset); sub-family 'dyn': dynamic outermost bound of dimension 0 resolved at run time to 1..4. The function is "
+    "step order, padding, offset); sub-family 'dyn': dynamic outermost bound of one dimension (any) resolved at run time to 1..4; sub-family "
+    "'dyn2' (15%): 1-2 dynamic dimensions anywhere in the memory order, '?' strides of strided layouts holding padded or capacity values at "
+    "run time, #tsl.tsl with 0-2 dynamic steps resolved by the contiguity assumption. The function is "
     "lowered by snax-copy-to-dma and executed on a byte-addressed memory with the runtime's 1-D/2-D DMA semantics, seeded base addresses and "
     "seeded row order of 2-D transfers. Online: every DMA byte read lies in the source footprint, every byte written in the destination "
     "footprint; afterwards every logical element sits at the address the destination layout assigns to it (addresses from an independent "
@@ -99,7 +101,119 @@ def gen_side(rng, tb, dyn, dd=0):
     return side
 
 
+# ---------------------------------------------------------------- sub-family 'dyn2': dynamic dimensions anywhere
+#
+# tb holds the *capacity* of every tile; the outermost tile of each dimension in dyn_dims is '?' in the type and is resolved
+# at run time to 1..capacity.  Static steps are laid out for the capacity, so they stay valid (injective) for every run-time
+# bound.  Dynamic steps:
+#   * row-major (no layout): the run-time shape decides all strides;
+#   * strided<[..]>: a '?' stride is whatever the descriptor holds at run time (here: either the value laid out for the
+#     capacity, or the smallest value that fits the run-time shape, plus padding);
+#   * #tsl.tsl with '?' steps (A8, the contiguity assumption of get_step_ops): going through the strides from the last
+#     dimension to the first and from the innermost to the outermost tile, each dynamic step continues where the
+#     previous one ended, starting from the span of the static part = (largest static step) x (bound of that stride).
+
+
+def lex_keys(tb):
+    return [(d, k) for d, t in enumerate(tb) for k in range(len(t))]
+
+
+def gen_side2(rng, tb, dyn_dims):
+    rank = len(tb)
+    shape = shape_of(tb)
+    kind = rng.choice(["tsl", "none", "strided", "strided"])
+    side = {"kind": kind, "off": 0, "dynmarks": [[d, 0, "b"] for d in dyn_dims]}
+    if kind == "none":
+        side["steps"] = row_major_steps(tb)
+    elif kind == "strided":
+        order = list(range(rank))
+        rng.shuffle(order)
+        cur, ds, pads = 1, {}, {}
+        for d in order:
+            ds[d] = cur
+            cur *= shape[d]
+            pads[d] = rng.choice([0, 0, 0, 1, 3])
+            cur += pads[d]
+        side.update(order=order, pads=[pads[d] for d in range(rank)], dimstrides=[ds[d] for d in range(rank)])
+        side["dyn_stride"] = [bool(rng.random() < 0.45) for d in range(rank)]
+        side["rt_recompute"] = rng.random() < 0.6
+        side["off"] = rng.choice([0, 0, 3])
+        side["dyn_off"] = rng.random() < 0.3
+        side["steps"] = strided_steps(tb, side["dimstrides"])
+    else:
+        keys = lex_keys(tb)
+        k = min(rng.choice([0, 0, 1, 1, 2]), len(keys) - 1)
+        dynk = sorted(rng.sample(keys, k), reverse=True)  # memory order of the dynamic steps: last dimension / innermost tile first
+        static = [x for x in keys if x not in dynk]
+        rng.shuffle(static)
+        steps, cur = {}, 1
+        for d, j in static:
+            steps[(d, j)] = cur
+            cur *= tb[d][j]
+            if rng.random() < 0.2:
+                cur += rng.choice([1, 2, 4])
+        for d, j in dynk:
+            steps[(d, j)] = 0  # resolved at run time
+            side["dynmarks"].append([d, j, "s"])
+        side["steps"] = [[steps[(d, j)] for j in range(len(t))] for d, t in enumerate(tb)]
+        side["off"] = rng.choice([0, 0, 3])
+    return side
+
+
+def strided_steps(tb, dimstrides):
+    out = []
+    for d, t in enumerate(tb):
+        c, row = dimstrides[d], [0] * len(t)
+        for k in reversed(range(len(t))):
+            row[k] = c
+            c *= t[k]
+        out.append(row)
+    return out
+
+
+def gen_case_dyn2(rng):
+    rank = rng.choice([1, 2, 2, 3, 3])
+    tb = [[rng.choice([1, 2, 2, 3, 4]) for _ in range(rng.choice([1, 1, 2]))] for _ in range(rank)]
+    dyn_dims = sorted(rng.sample(range(rank), min(rank, rng.choice([1, 1, 2]))))
+    for d in dyn_dims:
+        tb[d][0] = rng.choice([2, 3, 4])
+    case = {"fam": "dyn2", "tb": tb, "el": rng.choice(list(EL)), "dyn": True, "dyn_dims": dyn_dims, "sides": [gen_side2(rng, tb, dyn_dims) for _ in range(2)]}
+    case["env"] = {"base": [0x1000 + 8 * rng.randrange(16), 0x20000 + 8 * rng.randrange(16)], "seed": rng.randrange(1 << 30), "shuffle": rng.random() < 0.8,
+                   "dyn_bounds": [rng.randint(1, tb[d][0]) for d in dyn_dims]}
+    return case
+
+
+def runtime_layout2(case, side):
+    tb = [list(t) for t in case["tb"]]
+    for d, b in zip(case["dyn_dims"], case["env"]["dyn_bounds"]):
+        tb[d][0] = b
+    kind = side["kind"]
+    if kind == "none":
+        return tb, row_major_steps(tb)
+    if kind == "strided":
+        ds = list(side["dimstrides"])
+        if side["rt_recompute"]:
+            shape = shape_of(tb)
+            cur = 1
+            for d in side["order"]:
+                if side["dyn_stride"][d]:
+                    ds[d] = cur  # smallest value that fits what lies below it at run time
+                cur = ds[d] * shape[d] + side["pads"][d]
+        return tb, strided_steps(tb, ds)
+    steps = [list(x) for x in side["steps"]]
+    dynk = sorted(((d, k) for d, k, w in side["dynmarks"] if w == "s"), reverse=True)
+    static = [(steps[d][k], tb[d][k]) for d, k in lex_keys(tb) if (d, k) not in dynk]
+    mx = max(x for x, _ in static)
+    cur = mx * max(b for x, b in static if x == mx)
+    for d, k in dynk:
+        steps[d][k] = cur
+        cur *= tb[d][k]
+    return tb, steps
+
+
 def gen_case(rng, tier):
+    if rng.random() < 0.15:
+        return gen_case_dyn2(rng)
     rank = rng.choice([1, 2, 2, 3, 3, 4])
     depth = [rng.choice([1, 2, 2, 3]) for _ in range(rank)]
     tb = [[rng.choice([1, 2, 2, 3, 4]) for _ in range(depth[d])] for d in range(rank)]
@@ -122,7 +236,8 @@ def side_type(case, side):
     tb = case["tb"]
     shape = shape_of(tb)
     dd = case.get("dyn_dim", 0)
-    sh = "x".join("?" if (case["dyn"] and d == dd) else str(x) for d, x in enumerate(shape))
+    dyn_dims = case["dyn_dims"] if case.get("fam") == "dyn2" else ([dd] if case["dyn"] else [])
+    sh = "x".join("?" if d in dyn_dims else str(x) for d, x in enumerate(shape))
     k = side["kind"]
     if k == "none":
         lay = ""
@@ -141,6 +256,8 @@ def emit(case):
 
 def runtime_layout(case, side):
     """Tile bounds / steps as they are at run time (dynamic outer bound resolved; assumption A8 for a dynamic TSL step)."""
+    if case.get("fam") == "dyn2":
+        return runtime_layout2(case, side)
     tb = [list(t) for t in case["tb"]]
     steps = [list(s) for s in side["steps"]]
     if case["dyn"]:
@@ -206,6 +323,45 @@ def execute(case):
     return out
 
 
+def _static_lcb(self, other, starting_stride=1):
+    """Counterfactual for attributing KF-C05-1: the largest common contiguous block as its docstring describes it -
+    'stops searching when it hits a dynamic Stride, so it finds the largest static block'."""
+    from snaxc.ir.tsl.stride import Stride
+
+    strides = [x for x in self]
+    result = []
+    cur = starting_stride
+    while True:
+        nxt = next(((d, k, st) for d, k, st in strides if st.step == cur and st.step is not None and st.bound is not None), None)
+        if nxt is None:
+            return result or [Stride(starting_stride, 1)]
+        d, k, st = nxt
+        strides.remove(nxt)
+        if st == other.get_stride(d, k):
+            result.append(st)
+            cur = st.step * st.bound
+        else:
+            return result or [Stride(starting_stride, 1)]
+
+
+def _kf_c05_1(case, outcome):
+    """the violation disappears when the common-block search stops at dynamic strides (and only then it is this finding)"""
+    if not case.get("dyn") or outcome.get("oracle") not in ("footprint", "element-position"):
+        return False
+    from snaxc.ir.tsl.tiled_strided_layout import TiledStridedLayout
+
+    orig = TiledStridedLayout.largest_common_contiguous_block
+    TiledStridedLayout.largest_common_contiguous_block = _static_lcb
+    try:
+        again = execute(case)
+    finally:
+        TiledStridedLayout.largest_common_contiguous_block = orig
+    return again["status"] == "ok"
+
+
+TRIGGERS = {"common_block_search_continues_past_dynamic_strides": _kf_c05_1}
+
+
 def shrink(case):
     tb = case["tb"]
     if case["el"] != "i8":
@@ -221,7 +377,18 @@ def shrink(case):
             ns = list(case["sides"])
             ns[i] = dict(s, dyn_stride=[False] * len(tb), dyn_off=False)
             yield dict(case, sides=ns)
-    if case["dyn"] and case["env"]["dyn_bound"] > 1:
+    if case.get("fam") == "dyn2":
+        for j, b in enumerate(case["env"]["dyn_bounds"]):
+            if b > 1:
+                nb = list(case["env"]["dyn_bounds"])
+                nb[j] = b - 1
+                yield dict(case, env=dict(case["env"], dyn_bounds=nb))
+        for i, s in enumerate(case["sides"]):
+            if s["kind"] == "strided" and s.get("rt_recompute"):
+                ns = list(case["sides"])
+                ns[i] = dict(s, rt_recompute=False)
+                yield dict(case, sides=ns)
+    elif case["dyn"] and case["env"]["dyn_bound"] > 1:
         yield dict(case, env=dict(case["env"], dyn_bound=case["env"]["dyn_bound"] - 1))
 
 
@@ -238,7 +405,8 @@ META = {
     ],
     "assumptions": [
         "A7 snax_dma_2d_transfer copies `size` bytes x `repeat` rows with independent strides, rows in any order",
-        "A8 (sub-family dyn with a dynamic TSL step only) the dynamic step is the largest static step x its bound",
+        "A8 (dynamic TSL steps only) going from the last dimension to the first and from the innermost tile outwards, each dynamic step continues where the previous one ended, starting at (largest static step) x (bound of that stride; the largest bound if several strides share the step)",
+        "dyn2: static steps are laid out for a capacity (the largest run-time bound generated), run-time bounds are 1..capacity",
         "source and destination are different, injective layouts over disjoint memory; dynamic strides are the dense ones the generator chose",
         "no schedule or interleaving enters this property: distinct_interleavings = 1",
     ],
